@@ -48,7 +48,7 @@ def gen_case(rng, cfg):
             dst = 50 + sum(1 for o in ops if o[0] == "copycell")
             sp = rng.randrange(2)
             ops.append(["copycell", str(src["id"]), str(sp), str(dst)])
-            aims = aims + [dict(src, id=dst, space=sp)]
+            aims = aims + [dict(src, id=dst, space=sp, orig=src.get("orig", src["id"]))]
             exists[dst] = True
             continue
         if k == "copyspace":
@@ -56,7 +56,7 @@ def gen_case(rng, cfg):
                 k = "eval"
             else:
                 ops.append(["copyspace"])
-                new = [dict(x, id=execworld.COPY_BASE + x["id"], space=3) for x in aims
+                new = [dict(x, id=execworld.COPY_BASE + x["id"], space=3, orig=x.get("orig", x["id"])) for x in aims
                        if int(x.get("space", 0)) == 1 and exists.get(x["id"], True)]
                 aims = aims + new
                 for x in new:
@@ -140,7 +140,9 @@ def gen_case(rng, cfg):
         elif k == "setformula":
             # a new body of the same arity; it calls lower cells (or itself, guarded) only, like the old one
             g.cur_space = int(c.get("space", 0))
-            ops.append(["setformula", str(c["id"]), sexp(g.body(c["id"], c["nparams"], [x["nparams"] for x in cells]))])
+            # (a copy gets a body written for the cells it was copied from: it calls the program's lower cells)
+            ops.append(["setformula", str(c["id"]),
+                        sexp(g.body(c.get("orig", c["id"]), c["nparams"], [x["nparams"] for x in cells]))])
         elif k == "setcached":
             ops.append(["setcached", str(c["id"]), str(rng.randrange(2))])
         elif k == "admin":
